@@ -263,10 +263,7 @@ def run(ck):
             proof_ok = False
 
     # which variant of the reader model applies to the tree under test (see checks/c14.py)
-    probe = dict(id='probe', family='probe', nv=0, nc=0, pol=READALL, bytes=b'm\n\nobjno 0 0\nsuffix 0 0 600 0 0\nfoo\n')
-    pi, _, _, _ = C14.run_streams(ck, [probe], 'probe05')
-    C14.FX[0] = 0 if ' ABORT ' in pi[0] else 1
-
+    C14.decide_variant(ck, 'probe05')
     rng = random.Random(ck.seed * 1000003 + 5)
     n_cases = 800 if ck.tier == 'quick' else 20000
     fams = ['plain'] * 10 + ['nonfinite'] * 2 + ['hostile-message'] * 2 + ['options-0', 'options-12', 'options-vbtol']
@@ -398,7 +395,7 @@ def run(ck):
         'reals_in_vectors': n_reals, 'reals_satisfying_GoodNum_hypothesis': n_good, 'suffix_reals_satisfying_GoodSufTok_hypothesis': n_goodsuf,
         'codec_test': {'label': 'TEST (not proved): fmt {:.16} -> strtod/decstring on doubles', 'doubles': int(m.group(1)) if m else 0, 'bad': int(m.group(2)) if m else None},
         'correspondence': {'lines_compared_model_vs_impl': len(cases), 'disagreements': len(corr_bad)}, 'exhaustive': False,
-        'model_variant': 'patched' if C14.FX[0] else 'as-is',
+        
     })
     ck.notes.append('C05_roundtrip is proved for all solutions meeting the explicit side conditions Wf (model level, modulo the number codec: hypotheses GoodNum/GoodSufTok on the printed text are evaluated on every real of the run; the numeric half strtod(enc x) ~ x is TESTED, not proved); agreement of the models with the real writer and reader is sampled')
     ck.assumptions += [
